@@ -1,4 +1,88 @@
-(* placeholder until the proofs are integrated *)
-From LLTD Require Import BufProofs.
-Theorem C01_placeholder : True. Proof. exact I. Qed.
-Print Assumptions C01_placeholder.
+(* C01: reception is memory-safe in the model for every oracle, every buffer of the daemon's size, every history (Fault = any read/write outside a buffer, bad release).
+   Statements only: each theorem restates the full type of a lemma proved in coq/proofs and is closed by
+   `exact`; Print Assumptions beneath.  Regenerate with bin/genprops.py after a lemma changes. *)
+From LLTD Require Import BlockFun BlockSafe FaultProofs SysSafe.
+
+Theorem C01_frame_step_never_faults :
+  forall (af sf : N -> bool) (junk ctx : N) (c : pcfg) (g : gcfg) (s : ist)
+  (buf : list N) (w : world) (bl : nat) (bb : N),
+  cfg_ok c ->
+  length buf = o (c_rxsize c) ->
+  ledger_frame bl bb s w ->
+  st_bounded g s ->
+  exists (s' : ist) (w' : world),
+  parse_frame_st af sf junk ctx c g s buf w = Ok s' w' /\
+  ledger_frame bl bb s' w' /\ st_bounded g s' /\ w_now w' = w_now w.
+Proof. exact safe_step. Qed.
+Print Assumptions C01_frame_step_never_faults.
+
+Theorem C01_frame_never_faults :
+  forall (af sf : N -> bool) (junk ctx : N) (c : pcfg) (g : gcfg) (r : registry)
+  (buf : list N) (w : world) (bl : nat) (bb : N),
+  cfg_ok c ->
+  length buf = o (c_rxsize c) ->
+  ledger_reg bl bb r w ->
+  reg_bounded g r ->
+  exists (r' : registry) (w' : world),
+  parse_frame af sf junk ctx c g r buf w = Ok r' w' /\
+  ledger_reg bl bb r' w' /\
+  reg_bounded g r' /\
+  w_now w' = w_now w /\ length r' <= S (length r) /\ (reg_find r ctx <> None -> length r' = length r).
+Proof. exact safe_frame. Qed.
+Print Assumptions C01_frame_never_faults.
+
+Theorem C01_history_never_faults :
+  forall (af sf : N -> bool) (junk : N) (cfgs : N -> pcfg) (g : gcfg) (l : list fop)
+  (r : registry) (w : world) (bl : nat) (bb : N),
+  Forall (fop_ok cfgs) l ->
+  ledger_reg bl bb r w ->
+  reg_bounded g r ->
+  exists (r' : registry) (w' : world),
+  run_frames af sf junk cfgs g r l w = Ok r' w' /\ ledger_reg bl bb r' w' /\ reg_bounded g r'.
+Proof. exact safe_history. Qed.
+Print Assumptions C01_history_never_faults.
+
+Theorem C01_classifier_stays_inside :
+  forall (buf : list N) (len : N) (t : Automata.stable) (me : mac),
+  o len <= length buf -> exists ev : Z, Automata.classify buf len t me = Some ev.
+Proof. exact classify_total. Qed.
+Print Assumptions C01_classifier_stays_inside.
+
+Theorem C01_esp32_reads_inside_length :
+  forall (buf : list N) (len now : N) (a : Automata.aset),
+  length buf = o len -> exists a' : Automata.aset, Sys.esp32_handle buf len now a = Some a'.
+Proof. exact esp32_total. Qed.
+Print Assumptions C01_esp32_reads_inside_length.
+
+Theorem C01_tick_total :
+  forall (ctx : N) (a : Automata.aset) (w : world),
+  exists (a' : Automata.aset) (w' : world),
+  Automata.tick ctx a w = Ok a' w' /\
+  w_live w' = w_live w /\ w_bytes w' = w_bytes w /\ w_now w' = w_now w.
+Proof. exact tick_total. Qed.
+Print Assumptions C01_tick_total.
+
+Theorem C01_every_entry_point_every_history :
+  forall (af sf : N -> bool) (junk : N) (ops : list Sys.op) (y : Sys.sys) (w : world)
+  (bl : nat) (bb : N),
+  (forall ctx : N, cfg_ok (Sys.cfg_of y ctx)) ->
+  Forall
+  (fun p : Sys.op =>
+  match p with
+  | Sys.OAdv _ | Sys.OFrame _ _ _ | Sys.OClassify _ _ _ | Sys.OEsp32 _ _ _ |
+  Sys.OFlow _ _ _ | Sys.OTick _ => True
+  | _ => False
+  end) ops ->
+  ledger_reg bl bb (Sys.y_reg y) w ->
+  reg_bounded (Sys.y_g y) (Sys.y_reg y) ->
+  exists (y' : Sys.sys) (w' : world),
+  run_ops af sf junk y ops w = Ok y' w' /\
+  ledger_reg bl bb (Sys.y_reg y') w' /\ reg_bounded (Sys.y_g y') (Sys.y_reg y').
+Proof. exact rx_history_safe. Qed.
+Print Assumptions C01_every_entry_point_every_history.
+
+Theorem C01_hypotheses_satisfiable :
+  (forall ctx : N, cfg_ok (Sys.cfg_of Sys.sys0 ctx)) /\
+  ledger_reg 0 0 (Sys.y_reg Sys.sys0) world0 /\ reg_bounded (Sys.y_g Sys.sys0) (Sys.y_reg Sys.sys0).
+Proof. exact rx_history_applies. Qed.
+Print Assumptions C01_hypotheses_satisfiable.
